@@ -384,6 +384,25 @@ def easy_spec(rng, rank=2, L=128, dr=0.1, eta_max=0.25):
     return dict(types=types, dr=dr, L=L, d=d, rho=rho, kT=kT, pot=pot, clo=clo, om=om, fam='easy', eta=eta)
 
 
+def scaled_units(sp, f):
+    """the same physical system written in another unit of length (all lengths x f, number densities / f^3): e.g. f = 1e-7 puts a
+    'sigma = 1, dr = 0.1' system on a grid with dr = 1e-8, as a user working in centimetres or metres would have it"""
+    out = copy.deepcopy(sp)
+    out['dr'] = sp['dr'] * f
+    out['d'] = {t: v * f for t, v in sp['d'].items()}
+    out['rho'] = {t: v / f ** 3 for t, v in sp['rho'].items()}
+    for ps in out['pot'].values():
+        for k in ('sigma', 'alpha', 'rcut'):
+            if ps.get(k) is not None:
+                ps[k] = ps[k] * f
+    for os_ in out['om'].values():
+        if 's' in os_:
+            os_['s'] = os_['s'] * f
+    if out.get('sigma_table'):
+        out['sigma_table'] = {k: v * f for k, v in out['sigma_table'].items()}
+    return out
+
+
 def integer_grid(sp, factor=None):
     """the same physical system in units in which the grid spacing is the Python integer 1 (np.arange then yields an
     INTEGER real-space grid): all lengths x 1/dr, densities x dr^3"""
